@@ -683,6 +683,23 @@ func (d *Driver) removeDevice(ctx context.Context, deviceName string) {
 	}
 }
 
+// removeThisDevice is removeDevice for one particular LLRPDevice:
+// it does nothing unless the name still refers to dev,
+// so a device that winds down after it was removed doesn't take down
+// a newer device that has been registered under the same name in the meantime.
+func (d *Driver) removeThisDevice(ctx context.Context, deviceName string, dev *LLRPDevice) {
+	d.devicesMu.Lock()
+	defer d.devicesMu.Unlock()
+
+	if cur, ok := d.activeDevices[deviceName]; ok && cur == dev {
+		d.lc.Info("Stopping connection for device.", "device", deviceName)
+		if err := dev.Stop(ctx); err != nil {
+			d.lc.Error("Error attempting client shutdown.", "error", err.Error())
+		}
+		delete(d.activeDevices, deviceName)
+	}
+}
+
 // getAddr extracts an address from a protocol mapping.
 //
 // It expects the map to have {"tcp": {"host": "<ip>", "port": "<port>"}}.
